@@ -184,7 +184,7 @@ func runHarness(P *Program, spec HarnessSpec, workers int, solver string, verbos
 		spec.TimeoutS = 600
 	}
 	h := &Harness{Name: spec.Name, PkgPath: modPath + "/" + spec.Pkg, P: P, MaxSteps: spec.MaxSteps, Unwind: spec.Unwind,
-		MaxPaths: spec.MaxPaths, SolverKind: solver, SolverTmo: 20000, Workers: workers, UseModelCache: true,
+		MaxPaths: spec.MaxPaths, SolverKind: solver, SolverTmo: 6000, Workers: workers, UseModelCache: true,
 		Deadline: time.Now().Add(time.Duration(spec.TimeoutS) * time.Second), ownPkgs: map[string]bool{}, Verbose: verbose}
 	if spec.Pkg == "" {
 		h.PkgPath = modPath
